@@ -153,6 +153,8 @@ class RawGenerator(Monitor):
 
 
 def setup(concepts, spec):
+    from .. import probes
+    probes.install(['lindig'])
     cap = CAP[spec['tier']]
     attach.attach_ctor(concepts)
     attach.attach(concepts.lattices.CollectionMixin, '__iter__', IterMonitor(cap))
